@@ -113,6 +113,12 @@ def _bundle(ctx, trains, t0, t1, mrts, ri, max_tau, tag):
     prof("spike_profile", pyspike.spike_profile, a, b, **kS)
     prof("sync_profile", pyspike.spike_sync_profile, a, b, **kC)
     prof("order_profile", pyspike.spike_train_order_profile, a, b, **kC)
+    for nm, fn_ in (("sync", pyspike.spike_sync_profile), ("order", pyspike.spike_train_order_profile)):
+        f_ = ctx.call(tag + ":" + nm + "_for_plot", fn_, a, b, **kC)
+        for w in (1, 2):
+            xp, yp = ctx.call(tag + ":plottable", f_.get_plottable_data, w)
+            R["plot_%s_%d" % (nm, w)] = dict(x=[float(v) for v in xp], y=[float(v) for v in yp],
+                                             mp=[float(v) for v in f_.mp])
     if len(sts) > 2:
         prof("isi_profile_multi", pyspike.isi_profile, sts, **kI)
         prof("spike_profile_multi", pyspike.spike_profile, sts, **kS)
@@ -232,6 +238,17 @@ def run_case(case, ctx):
             else:
                 ctx.check(_close_list(R["y"], list(reversed(B["y"]))), "mirror:values:" + p,
                           lambda: "%s mirrored y=%r base y=%r x=%r" % (p, R["y"], B["y"], B["x"]))
+    # smoothed plottable data: mirrored too, when the window (k+1)*mp[0] is the same on
+    # both sides (it is derived from the first framing entry)
+    for key in [k for k in base if k.startswith("plot_")]:
+        B, R = base[key], mi[key]
+        if B["mp"][0] != B["mp"][-1] or R["mp"][0] != R["mp"][-1] or len(B["x"]) <= 2:
+            continue        # (no events: the framing values are a convention, not mirrored)
+        sign = -1.0 if "order" in key else 1.0
+        ctx.check(R["x"] == [mir(v) for v in reversed(B["x"])] and
+                  _close_list(R["y"], [sign * v for v in reversed(B["y"])]),
+                  "mirror:plottable:" + key,
+                  lambda: "%s mirrored y=%r, base y=%r (mp=%r)" % (key, R["y"], B["y"], B["mp"]))
     for s_ in ("isi_distance", "spike_distance", "spike_sync", "isi_matrix", "spike_matrix",
                "sync_matrix"):
         ctx.check(_close_list(mi[s_], base[s_]), "mirror:scalar:" + s_,
